@@ -1,11 +1,73 @@
-(* Props/C14.v — property C14: statements only.  Each theorem is closed by `exact`. *)
+(* Props/C14.v — property C14: statements only.  Each theorem is closed by `exact`.
+   tdecode = the instrumented mirror of Streamable::parse::<TRUSTED> (Stream/Total.v): outcomes TOk | TErr | TPanic,
+   with a Panic branch wherever the Rust has an unwrap / index / slice, and an allocation meter.
+   All statements are for every type of the universe, every byte string, both decoding modes, any oracle O. *)
 From Coq Require Import String.
 From ChiaV.Base Require Import Bytes.
-From ChiaV.Stream Require Import Universe Versioned Codec Total TotalProofs.
+From ChiaV.Stream Require Import Universe Versioned Codec Total ValText TotalProofs.
 From ChiaV.Gen Require Import StreamTypes.
 Open Scope N_scope.
 
-(* from_bytes accepts only when the parser consumed exactly the input *)
-Theorem C14_from_bytes_consumes_all : forall O tr t bs v a,
-  t_from_bytes O tr t bs = FOk v a -> tdecode O tr t bs 0 = TOk v [] a.
-Proof. exact t_from_bytes_ok. Qed.
+(* decoding never panics (none of the unwrap / index / slice branches is reachable) *)
+Theorem C14_decode_never_panics : forall O tr t bs a, tdecode O tr t bs a <> TPanic.
+Proof. exact tdecode_no_panic. Qed.
+Theorem C14_from_bytes_never_panics : forall O tr t bs, t_from_bytes O tr t bs <> FPanic.
+Proof. exact t_from_bytes_no_panic. Qed.
+
+(* the instrumented decoder computes exactly what the plain decoder of C13 computes; the meter never decreases *)
+Theorem C14_instrumented_refines_decode : forall O tr t bs a,
+  match tdecode O tr t bs a with
+  | TOk v r a' => decode O tr t bs = Some (v, r) /\ a <= a'
+  | TErr a' => decode O tr t bs = None /\ a <= a'
+  | TPanic => False
+  end.
+Proof. exact tdecode_spec. Qed.
+Theorem C14_from_bytes_ok_iff : forall O tr t bs v,
+  (exists a, t_from_bytes O tr t bs = FOk v a) <-> from_bytes_gen O tr t bs = Some v.
+Proof. exact t_from_bytes_ok_iff. Qed.
+
+(* never consumes more than the input *)
+Theorem C14_consumed_le_length : forall O, prog_len_stable_hyp O -> forall tr t bs a v r a',
+  tdecode O tr t bs a = TOk v r a' -> nlen r <= nlen bs.
+Proof. exact t_consumed_le_length. Qed.
+
+(* from_bytes rejects trailing bytes and missing bytes (the encodings form a prefix-free code) *)
+Theorem C14_trailing_bytes_rejected : forall O, prog_len_stable_hyp O -> prog_len_pos_hyp O -> forall tr t bs v a extra,
+  t_from_bytes O tr t bs = FOk v a -> extra <> [] -> exists a', t_from_bytes O tr t (bs ++ extra) = FErr a'.
+Proof. exact t_trailing_rejected. Qed.
+Theorem C14_missing_bytes_rejected : forall O, prog_len_stable_hyp O -> prog_len_pos_hyp O -> forall tr t bs v a extra,
+  t_from_bytes O tr t (bs ++ extra) = FOk v a -> extra <> [] -> exists a', t_from_bytes O tr t bs = FErr a'.
+Proof. exact t_missing_rejected. Qed.
+
+(* operations on a decoded value: re-encoding succeeds, equality is reflexive, and hashing completes for every
+   value outside KnownClass := has_bad_pos (contains a v2 ProofOfSpace without a quality string, F-C14-1) *)
+Theorem C14_ops_on_decoded_values_total : forall O, prog_len_stable_hyp O -> forall tr t bs v r,
+  decode O tr t bs = Some (v, r) ->
+  (exists e, encode t v = Some e) /\
+  (has_bad_pos O t v = false -> exists b, digest O t v = DOk b) /\
+  value_eqb v v = true.
+Proof. exact ops_on_decoded_total. Qed.
+
+(* the unrestricted statement is FALSE: a decodable (trusted and untrusted) v2 ProofOfSpace whose hash() panics *)
+Theorem C14_pos_hash_refuted :
+  from_bytes toy_oracles PoS f_c14_1_witness = Some f_c14_1_value /\
+  from_bytes_unchecked toy_oracles PoS f_c14_1_witness = Some f_c14_1_value /\
+  encode PoS f_c14_1_value = Some f_c14_1_witness /\
+  digest toy_oracles PoS f_c14_1_value = DPanic /\ has_bad_pos toy_oracles PoS f_c14_1_value = true.
+Proof. exact pos_hash_refuted. Qed.
+
+(* allocation.  Full statement (NOT proved in Coq, validated per case by the check: the model's meter and the real
+   peak of the counting allocator are both compared with alloc_bound on every input):
+     forall O tr t bs, vec elements non-empty on the wire ->
+       meter (tdecode O tr t bs 0) + scratch_reserve tr t <= alloc_bound t (nlen bs) = (vdepth t + 1) * 2 MiB + cfac t * nlen bs
+   Proved parts: a Vec reservation never exceeds 2 MiB nor the claimed length, whatever length prefix is sent; the
+   allocating leaves retain no more than they consumed (Program: plus 64 bytes of scratch per byte).
+   Missing: the induction through nested Vec with the RawVec doubling invariant. *)
+Theorem C14_alloc_bound_partial_vec_reservation : forall sz n, vec_cap0 sz n * sz <= MiB2 /\ vec_cap0 sz n <= n.
+Proof. exact vec_prealloc_bounded. Qed.
+Theorem C14_alloc_bound_partial_bytes : forall bs a v r a',
+  t_bytes bs a = TOk v r a' -> a' + nlen r + 4 <= a + nlen bs.
+Proof. exact t_bytes_alloc. Qed.
+Theorem C14_alloc_bound_partial_program : forall O tr bs a v r a',
+  t_prog O tr bs a = TOk v r a' -> a' <= a + (1 + clvm_per_byte) * (nlen bs - nlen r) /\ nlen r <= nlen bs.
+Proof. exact t_prog_alloc. Qed.
